@@ -35,10 +35,12 @@ impl TableBuilder for Program {
         if let Some(entry) = table.lookup("main").as_ref() {
             if let GlobalEntry::Procedure(main) = &entry {
                 if !main.parameters.is_empty() {
-                    self.info.append_error(SplError(
-                        main.name.to_range(),
-                        BuildErrorMessage::MainMustNotHaveParameters.into(),
-                    ));
+                    // the name is relative to its declaration, the errors of the program are not
+                    let SplError(range, message) = main
+                        .name
+                        .to_error(|_| BuildErrorMessage::MainMustNotHaveParameters);
+                    self.info
+                        .append_error(SplError(range.shift(main.range.start), message));
                 }
             } else {
                 panic!("'main' must be a procedure");
